@@ -13,6 +13,7 @@
  (iii) chain surgery: Flow._preprocess_chain lets a checkpoint swallow the links before it; checkpoint._preprocess_chain
        resumes with exactly the reader when the file exists (C08 contract)
 """
+from contracts import findings_natives as KF
 from contracts.common import Item, mk_resource, mk_package2, expect_no_raise_or_same, _b
 from contracts import streams as S
 from contracts.streams import calls, effect_names
@@ -451,4 +452,5 @@ ITEMS = [
     Item('unstream', S.sym_unstream, [], 'dataflows/processors/unstream.py::unstream'),
     Item('checkpoint', S.sym_checkpoint, [('histories', nat_checkpoint_histories)], 'dataflows/processors/checkpoint.py::checkpoint._preprocess_chain'),
     Item('Flow._preprocess_chain', sym_flow_preprocess, [], 'dataflows/base/flow.py::Flow._preprocess_chain'),
+    Item('recorded-findings', None, [('bounded', KF.nat_findings_c07)], 'dataflows/processors/unstream.py::unstream.res_reader'),
 ]
